@@ -126,9 +126,14 @@ func c11Exec(c Sx) (obs Sx) {
 	}
 	nest(0)
 	got, _, _ := r.Match("GET", dec)
+	// a HEAD lookup of a GET-only route goes through the same normalisation (HEAD falls back to GET)
+	gotHead, _, _ := r.Match("HEAD", dec)
 	req := &http.Request{Method: "GET", URL: u, Header: http.Header{}, Proto: "HTTP/1.1", ProtoMajor: 1, ProtoMinor: 1}
 	w := httptest.NewRecorder()
 	r.ServeHTTP(w, req)
+	if (got == rt) != (gotHead == rt) {
+		return L(L(A("path"), S(rt.Path())), L(A("match"), A("head-lookup-differs")), L(A("serve"), B(w.Code == 200)))
+	}
 	return L(L(A("path"), S(rt.Path())), L(A("match"), B(got == rt)), L(A("serve"), B(w.Code == 200)))
 }
 
